@@ -47,7 +47,9 @@ def run(prog, chk):
         if not calls:
             continue
         single[name] = (g, calls)
-    chk.count('single-qubit gates routed through the 2x2 applicator', len(single), 7)
+    for g_ in sim.get('inert_gates', []):
+        chk.ob('R01.1', g_, g_.ln, False, 'gate %s does not touch the state vector at all (its matrix is never applied)' % g_.short, key='matrix:' + g_.short)
+    chk.count('single-qubit gates routed through the 2x2 applicator', len(single) + len(sim.get('inert_gates', [])), 7)
     for name, (g, calls) in sorted(single.items()):
         if name not in refs:
             chk.ob('R01.1', g, g.ln, False, 'gate %s has no reference unitary in the oracle table' % name, key='matrix:' + name)
@@ -99,6 +101,28 @@ def run(prog, chk):
 
     # ---- R01.4 dispatch ----------------------------------------------------------------------------
     _dispatch_rule(prog, chk, R, gates)
+
+
+def _loop_defect(s):
+    """the statement is a counted loop over one declared index but deviates from `from 0, upwards, index untouched in the body`
+    → reason; None when it is not that kind of loop at all (then the decomposition is simply not recognised)"""
+    if s.get('k') != 'for' or not s.get('init') or s['init']['k'] != 'decls' or len(s['init']['d']) != 1:
+        return None
+    v = s['init']['d'][0]
+    init = SX.strip(v.get('init'))
+    while SX.is_node(init) and init['k'] in ('cast', 'initlist'):
+        init = init['e'] if init['k'] == 'cast' else (init['items'][0] if init['items'] else None)
+    why = []
+    if SX.is_node(init) and init['k'] == 'int' and init['v'] != 0:
+        why.append('starts at %d instead of 0' % init['v'])
+    w = SX.write_target(s['inc']) if SX.is_node(s.get('inc')) else None
+    if w and SX.is_node(SX.strip(w[0])) and SX.strip(w[0]).get('id') == v['id'] and w[2] in ('--', '-=', '*=', '/=', '='):
+        why.append('steps with `%s`' % w[2])
+    for n in SX.walk(s['body'], into_lambdas=False):
+        ww = SX.write_target(n)
+        if ww and SX.is_node(SX.strip(ww[0])) and SX.strip(ww[0]).get('id') == v['id']:
+            why.append('index %s is modified in the body' % v['name'])
+    return '; '.join(why) or None
 
 
 def _loop_parts(s):
@@ -167,9 +191,15 @@ def _apply_rule(prog, chk, R, app, amp, sp, KS):
     two_q = KT.op('<<', KT.I(1), KT.S(q['name']))
     po = _loop_parts(outer)
     inner = [s for s in (outer['body']['body'] if outer['body']['k'] == 'block' else [outer['body']]) if s['k'] == 'for']
+    if po is None and _loop_defect(outer):
+        chk.ob('R01.5', app, outer.get('ln', app.ln), False, 'the block loop of the pair sweep runs from 0 upwards over the whole vector: it %s' % _loop_defect(outer), key='apply:outer-shape')
+        return
     if po is None or len(inner) != 1:
         raise AnalysisBroken('applicator: loop nest is not the strided-block form (other decompositions are not recognised)')
     pi = _loop_parts(inner[0])
+    if pi is None and _loop_defect(inner[0]):
+        chk.ob('R01.5', app, inner[0].get('ln', app.ln), False, 'the offset loop of the pair sweep runs from 0 upwards over [0, 2^q): it %s' % _loop_defect(inner[0]), key='apply:inner-shape')
+        return
     if pi is None:
         raise AnalysisBroken('applicator: inner loop not in counted form')
     ov, obound, ostride = po
@@ -237,6 +267,8 @@ def _apply_rule(prog, chk, R, app, amp, sp, KS):
                     raise KS.Unfoldable('store to ' + SX.show(l))
                 idx = FT.fold(l['i'])
                 store[idx] = sp.expand(KS.to_sympy(w[1], senv, reads))
+            elif s['k'] == 'null':
+                pass
             else:
                 raise KS.Unfoldable('statement kind ' + s['k'])
     except (KS.Unfoldable, KT.Unfoldable) as e:
@@ -293,6 +325,10 @@ def _cx_rule(prog, chk, R, cx, amp):
         cur = loops[0]
         while True:
             p = _loop_parts(cur)
+            if p is None and _loop_defect(cur):
+                chk.ob('R01.3', cx, cur.get('ln', cx.ln), False, 'each loop of the cx sweep runs from 0 upwards with its index untouched: it %s' % _loop_defect(cur),
+                       key='cx:loop-shape:%s' % ('control<target' if lt else 'control>target'))
+                return
             if p is None:
                 raise AnalysisBroken('cx: loop not in counted form (other decompositions are not recognised)')
             nest.append((cur, p))
